@@ -145,7 +145,8 @@ fn p_ping_disabled() {
     core::mem::forget((task, tx_msg_rx, dropped_rx, con_rx, dgram_rx));
 }
 
-/// only a Pong refreshes the last-pong time; Ping, Close and data frames do not
+/// only a Pong refreshes the last-pong time; Ping and Close do not (data frames go to
+/// process_frame, which has no access path to the timestamp)
 #[cfg_attr(kani, kani::proof)]
 #[cfg_attr(kani, kani::stub(catch_unwind, call_through))]
 #[cfg_attr(kani, kani::unwind(6))]
@@ -159,9 +160,9 @@ fn p_only_pong_refreshes() {
     let r = poll_once(w.task.process_message(Message::Ping, false));
     core::mem::forget(r);
     assert!(w.task.last_pong_timestamp.lock().0 == p as u64, "C16.refresh.ping_does_not: an inbound Ping is not evidence that our pings are answered");
-    let r = poll_once(w.task.process_message(Message::Binary(Bytes::from_static(&[0x72, 0, 0, 0, 9])), false));
+    let r = poll_once(w.task.process_message(Message::Close, false));
     core::mem::forget(r);
-    assert!(w.task.last_pong_timestamp.lock().0 == p as u64, "C16.refresh.data_does_not");
+    assert!(w.task.last_pong_timestamp.lock().0 == p as u64, "C16.refresh.close_does_not");
     let r = poll_once(w.task.process_message(Message::Pong, false));
     assert!(matches!(r, Poll::Ready(Ok(false))), "C16.refresh.pong.ok");
     core::mem::forget(r);
